@@ -473,7 +473,7 @@ __gmp_doscan (const struct gmp_doscan_funs_t *funs, void *data,
   const char  *fmt, *this_fmt, *end_fmt;
   size_t      orig_fmt_len, alloc_fmt_size, len;
   int         new_fields, new_chars;
-  char        fchar;
+  unsigned char  fchar;   /* compared with what get() returns: an unsigned char value */
   int         fields = 0;
   int         chars = 0;
 
